@@ -192,6 +192,28 @@ def print_assumptions(prop_file_vo_log, names):
     raise NotImplementedError
 
 
+def _sweep_stale_workdirs(max_age_s=6 * 3600):
+    """remove work directories left behind by killed runs"""
+    root = os.path.join(VERIF, 'build')
+    if not os.path.isdir(root):
+        return
+    now = time.time()
+    for d in os.listdir(root):
+        p = os.path.join(root, d)
+        try:
+            if d.startswith('run-') and now - os.path.getmtime(p) > max_age_s:
+                shutil.rmtree(p, ignore_errors=True)
+        except OSError:
+            pass
+
+
+def coqc_many(paths, jobs=8, timeout=600):
+    """compile generated files in parallel; returns their outputs in order"""
+    from concurrent.futures import ThreadPoolExecutor
+    with ThreadPoolExecutor(max_workers=jobs) as ex:
+        return list(ex.map(lambda p: coqc_file(p, timeout), paths))
+
+
 def assumptions_of(module, theorems, workdir):
     """Ask Coq for the assumptions of each theorem; returns dict name -> list."""
     os.makedirs(workdir, exist_ok=True)
@@ -259,6 +281,7 @@ class Ctx:
         self.rng = random.Random(seed * 1000003 + int(pid[1:]))
         self.t0 = time.time()
         self.workdir = os.path.join(VERIF, 'build', f'run-{pid}-{os.getpid()}')
+        _sweep_stale_workdirs()
         os.makedirs(self.workdir, exist_ok=True)
         self.evaluations = 0
         self.nontrivial = set()
